@@ -16,17 +16,20 @@ def visibleEvents (ms : List Match) (inc : Option TSRange) : List CapEv :=
   | none => allEvents ms
   | some r => (allEvents ms).filter fun e => !captureOutside e.cap.r r
 
-/-- Clause (a): same set of (pattern, capture, node) triples, in document order. -/
+/-- Clause (a): same set of (pattern, capture, node) triples, in document order.  Under a range
+restriction the cursor may additionally drop captures whose node is outside the range (it does so
+for finished states only), so there the capture view lies between the visible and all triples. -/
 def judgeA (ms : List Match) (cs : List CapEv) (inc : Option TSRange) : Bool :=
-  let tm := (visibleEvents ms inc).map CapEv.triple
+  let lower := (visibleEvents ms inc).map CapEv.triple
+  let upper := (allEvents ms).map CapEv.triple
   let tc := cs.map CapEv.triple
-  subsetB tc tm && subsetB tm tc && startSorted cs
+  subsetB tc upper && subsetB lower tc && startSorted cs
 
 def isEmptyNode (e : CapEv) : Bool := e.cap.r.start_byte == e.cap.r.end_byte
 
 def explainA (ms : List Match) (cs : List CapEv) (inc : Option TSRange) : String :=
   let evs := visibleEvents ms inc
-  let tm := evs.map CapEv.triple
+  let tm := (allEvents ms).map CapEv.triple
   let tc := cs.map CapEv.triple
   let extra := cs.filter fun e => !tm.contains e.triple
   let missing := evs.filter fun e => !tc.contains e.triple
@@ -65,28 +68,29 @@ def judgeG (u dms : List Match) (d : Nat) : Bool :=
 
 /-! ## (e) removal -/
 
-/-- `e` arises from `u` by deleting only events of match `id` at stream positions `> pos`. -/
-def subDel (id pos : Nat) : Nat → List CapEv → List CapEv → Bool
-  | _, [], [] => true
-  | _, [], _ :: _ => false
-  | i, u :: us, [] => decide (u.id = id ∧ i > pos) && subDel id pos (i + 1) us []
-  | i, u :: us, e :: es =>
-    if u = e then subDel id pos (i + 1) us es
-    else decide (u.id = id ∧ i > pos) && subDel id pos (i + 1) us (e :: es)
-
 /-- The id names one match in the stream (no two of its events share a list position). -/
 def idUnique (u : List CapEv) (id : Nat) : Bool :=
   let ks := (u.filter fun e => e.id == id).map (·.k)
   decide (ks.Nodup)
 
-/-- Clause (e): removing the match of the event at `pos` suppresses only that match's later
-captures, and all of them when the id names a single match. -/
+/-- Clause (e): after removing the match of the event at `pos`, the stream up to `pos` is
+unchanged; every capture of the *other* matches is still reported; nothing new is reported; and
+when the id names a single match, the captures only that match would still have delivered are gone.
+(Compared as triples: match ids of later states may be renumbered after a removal.) -/
 def judgeE (u e : List CapEv) (pos : Nat) : Bool :=
   match u[pos]? with
   | none => decide (u = e)
   | some x =>
-    subDel x.id pos 0 u e &&
-    (!idUnique u x.id || (e.drop (pos + 1)).all fun ev => ev.id != x.id)
+    let uLater := u.drop (pos + 1)
+    let eLater := (e.drop (pos + 1)).map CapEv.triple
+    let others := (uLater.filter fun ev => ev.id != x.id).map CapEv.triple
+    let own := (uLater.filter fun ev => ev.id == x.id).map CapEv.triple
+    let before := (u.take (pos + 1)).map CapEv.triple
+    decide (e.take (pos + 1) = u.take (pos + 1)) &&
+    subsetB others eLater &&
+    subsetB eLater (u.map CapEv.triple) &&
+    (!idUnique u x.id ||
+      own.all fun t => others.contains t || before.contains t || !eLater.contains t)
 
 /-! ## (f) predicates -/
 
